@@ -244,6 +244,161 @@ theorem interval_to_power_agree (h : NumDisp rec) (a b e : Num) :
 
 end Interval
 
+/-! ### arrays, ranges, variadic max / min (no hypothesis on the dispatcher is needed) -/
+
+section Arrays
+variable (rec : Disp)
+open Gen.Bodies
+
+theorem pyIndex_append (pre t : List Val) (e : Val) : pyIndex (pre ++ e :: t) (pre.length : Int) = .ok e := by
+  have h1 : ¬ ((pre.length : Int) < 0) := by omega
+  simp [pyIndex, h1]
+
+theorem rtruth_eq (name : String) (args : List Val) : rtruth rec name args = rec name args >>= pyTruthy := by
+  unfold rtruth
+  apply bind_congr'
+  intro v
+  cases v <;> rfl
+
+theorem array_prod_agree (xs : List Val) : array_prod rec (.arr xs) = bArrProd rec [.arr xs] := by
+  simp only [array_prod, bArrProd, pyContents, pyForM, ok_bind, PyRt.pyInt, bind_pure]
+
+theorem array_size_agree (xs : List Val) :
+    (do let n ← array_size rec (.arr xs); pure (PyRt.pyInt n)) = bArrSize rec [.arr xs] := rfl
+
+theorem array_mean_agree (xs : List Val) : array_mean rec (.arr xs) = bArrMean rec [.arr xs] := by
+  cases xs <;> rfl
+
+theorem minmax_fold_min (xs : List Val) (r : Val) :
+    pyForM xs r (fun (result : Val) (e : Val) => do
+        let t5 ← rec "<" [e, result]
+        let t6 ← pyTruthy t5
+        if t6 then do
+          let result : Val := e
+          pure result
+        else do
+          pure result)
+    = xs.foldlM (fun r e => do if ← rtruth rec "<" [e, r] then pure e else pure r) r := by
+  simp only [pyForM, rtruth_eq, bind_assoc]
+
+theorem minmax_fold_max (xs : List Val) (r : Val) :
+    pyForM xs r (fun (result : Val) (e : Val) => do
+        let t5 ← rec "<" [result, e]
+        let t6 ← pyTruthy t5
+        if t6 then do
+          let result : Val := e
+          pure result
+        else do
+          pure result)
+    = xs.foldlM (fun r e => do if ← rtruth rec "<" [r, e] then pure e else pure r) r := by
+  simp only [pyForM, rtruth_eq, bind_assoc]
+
+theorem array_min_agree (xs : List Val) : array_min rec (.arr xs) = bArrMin rec [.arr xs] := by
+  cases xs with
+  | nil => rfl
+  | cons h t =>
+    have := minmax_fold_min rec (h :: t) h
+    have h0 : ((↑(h :: t).length : Int) == 0) = false := by simp; omega
+    have hi : pyIndex (h :: t) 0 = .ok h := pyIndex_append [] t h
+    simp only [array_min, bArrMin, pyContents, ok_bind, bind_pure, pyLen, h0, hi, Bool.false_eq_true, if_false]
+    exact this
+
+theorem array_max_agree (xs : List Val) : array_max rec (.arr xs) = bArrMax rec [.arr xs] := by
+  cases xs with
+  | nil => rfl
+  | cons h t =>
+    have := minmax_fold_max rec (h :: t) h
+    have h0 : ((↑(h :: t).length : Int) == 0) = false := by simp; omega
+    have hi : pyIndex (h :: t) 0 = .ok h := pyIndex_append [] t h
+    simp only [array_max, bArrMax, pyContents, ok_bind, bind_pure, pyLen, h0, hi, Bool.false_eq_true, if_false]
+    exact this
+
+/-- the index loop of `array_sum` over `range(k, k + len(t))` reads the elements of `t` in order -/
+theorem index_fold (f : Val → Val → R Val) (t pre : List Val) (acc : Val) :
+    ((List.range t.length).map (fun (j : Nat) => (pre.length : Int) + Int.ofNat j)).foldlM
+        (fun r i => do let e ← pyIndex (pre ++ t) i; f r e) acc
+      = t.foldlM f acc := by
+  induction t generalizing pre acc with
+  | nil => rfl
+  | cons e t ih =>
+    have hi := pyIndex_append pre t e
+    have h0 : (pre.length : Int) + Int.ofNat 0 = pre.length := by simp
+    simp only [List.length_cons, List.range_succ_eq_map, List.map_cons, List.map_map, List.foldlM_cons, h0, hi, ok_bind]
+    apply bind_congr'
+    intro r
+    have := ih (pre ++ [e]) r
+    simp only [List.append_assoc, List.cons_append, List.nil_append, List.length_append, List.length_cons, List.length_nil] at this
+    rw [← this]
+    congr 1
+    apply List.map_congr_left
+    intro j _
+    simp only [Function.comp, Int.ofNat_eq_natCast]
+    omega
+
+theorem array_sum_agree (xs : List Val) : array_sum rec (.arr xs) = bArrSum rec [.arr xs] := by
+  cases xs with
+  | nil => rfl
+  | cons h t =>
+    have := index_fold (fun r e => rec "+" [r, e]) t [h] h
+    simp only [array_sum, bArrSum, pyContents, ok_bind, bind_pure, pyLen, pyForM, pyRange]
+    have hl : ((↑(h :: t).length : Int) - 1).toNat = t.length := by simp
+    have h0 : ((↑(h :: t).length : Int) == 0) = false := by simp; omega
+    have hi : pyIndex (h :: t) 0 = .ok h := pyIndex_append [] t h
+    simp only [h0, hi, ok_bind, hl, Bool.false_eq_true, if_false]
+    simpa using this
+
+theorem anyM_loop (x : Val) (xs : List Val) :
+    pyAnyM (fun (e : Val) => do
+        let t2 ← rec "==" [x, e]
+        let t3 ← pyTruthy t2
+        pure t3) xs = inArrayLoop rec x xs := by
+  induction xs with
+  | nil => rfl
+  | cons e es ih => simp only [pyAnyM, inArrayLoop, rtruth_eq, bind_pure, ih]
+
+theorem in_array_agree (x : Val) (xs : List Val) :
+    (do let n ← in_array rec x (.arr xs); pure (PyRt.pyInt n)) = bInArray rec [x, .arr xs] := by
+  simp only [in_array, bInArray, pyIter, ok_bind, anyM_loop, bind_assoc, map_def, pure_def, b2v, PyRt.pyInt]
+  apply bind_congr'
+  intro b
+  cases b <;> rfl
+
+theorem max_vararg_agree (args : List Val) : max_vararg rec args = bVarMax rec args := by
+  cases args with
+  | nil => rfl
+  | cons a as =>
+    have h0 : ((↑(a :: as).length : Int) == 0) = false := by simp; omega
+    simp only [max_vararg, bVarMax, pyMaxOf, pyLen, h0, Bool.false_eq_true, if_false]
+    cases hn : nums? (a :: as) with
+    | none => rfl
+    | some ns =>
+      cases ns with
+      | nil => cases a <;> simp [nums?, Option.map] at hn <;> (cases h' : nums? as <;> simp [h'] at hn)
+      | cons _ _ => rfl
+
+theorem min_vararg_agree (args : List Val) : min_vararg rec args = bVarMin rec args := by
+  cases args with
+  | nil => rfl
+  | cons a as =>
+    have h0 : ((↑(a :: as).length : Int) == 0) = false := by simp; omega
+    simp only [min_vararg, bVarMin, pyMinOf, pyLen, h0, Bool.false_eq_true, if_false]
+    cases hn : nums? (a :: as) with
+    | none => rfl
+    | some ns =>
+      cases ns with
+      | nil => cases a <;> simp [nums?, Option.map] at hn <;> (cases h' : nums? as <;> simp [h'] at hn)
+      | cons _ _ => rfl
+
+/-- `lo..hi` on two ints, within the model's size bound -/
+theorem lambda_range_agree (lo hi : Int) (hb : (hi + 1 - lo).toNat ≤ maxRange) :
+    lambda_range_Integral_Integral rec (.num (.int lo)) (.num (.int hi)) = bRange rec [.num (.int lo), .num (.int hi)] := by
+  have : ¬ ((hi + 1 - lo).toNat > maxRange) := by omega
+  simp only [lambda_range_Integral_Integral, bRange, pyAdd, pyArith, PyRt.pyInt, pyLin, liftE, Except.map, ok_bind, pyRangeVals,
+    pure_def, this, if_false, pyRange, Arr.range, List.map_map]
+  rfl
+
+end Arrays
+
 /-! ### `NumDisp` holds for the real dispatcher -/
 
 /-- the answer is a number whenever there is one -/
